@@ -7,7 +7,7 @@ Hypotheses on the hooks:
 
   `HB pl ap bp N`  a payload run on a block `data` that sits in a stream of at most `N` bytes (behind the 12 bytes of its
                    tagged-block header: `len(data) + 12 ≤ N`) costs at most `ap · len(data) + bp`;
-  `HR rs ar br`    the same for an image resource.
+  `HR rs ar br N`  the same for an image resource whose block has at most `N` bytes.
 
 The additive constant `bp` of a payload is paid by the twelve header bytes of its tagged block (`bp ≤ 12 · q`), so
 the constants of the typed readers do not depend on `bp`: with `a = ap + q`
@@ -26,7 +26,10 @@ open PsdVerif PsdVerif.Codec PsdVerif.Psd PsdVerif.PsdCost PsdVerif.PayloadCost 
 def HB (pl : BlockHook) (ap bp N : Nat) : Prop :=
   ∀ v key data, data.length + 12 ≤ N → (pl v key data).2.w ≤ ap * data.length + bp
 
-def HR (rs : ResHook) (ar br : Nat) : Prop := ∀ key data, (rs key data).2.w ≤ ar * data.length + br
+def HR (rs : ResHook) (ar br N : Nat) : Prop := ∀ key data, data.length ≤ N → (rs key data).2.w ≤ ar * data.length + br
+
+theorem HR.anti {rs : ResHook} {ar br N N' : Nat} (h : HR rs ar br N) (hn : N' ≤ N) : HR rs ar br N' :=
+  fun key data hd => h key data (by omega)
 
 theorem HB.anti {pl : BlockHook} {ap bp N N' : Nat} (h : HB pl ap bp N) (hn : N' ≤ N) : HB pl ap bp N' :=
   fun v key data hd => h v key data (by omega)
@@ -284,14 +287,15 @@ end blocks
 section resources
 variable {rs : ResHook} {ar br j : Nat}
 
-theorem resourceT_pays (d : B) (p : Nat) (hr : HR rs ar br) : Pays (1 + ar) (9 + br) d p (Resource.decT rs d p) := by
+theorem resourceT_pays (d : B) (p : Nat) (hr : HR rs ar br d.length) : Pays (1 + ar) (9 + br) d p (Resource.decT rs d p) := by
   unfold Resource.decT
   refine PaysCr.bind (readNC_pays 4 d p) (fun sig p _ => ?_) (by omega)
   refine PaysCr.bind (readUC_pays 2 d p) (fun key p _ => ?_) (by omega)
   refine PaysCr.bind (readPascalC_pays 2 d p) (fun name p _ => ?_) (by omega)
   have e : ar + 1 = 1 + ar := by omega
-  refine PaysCr.bind (readLenBlockC_pays ar 0 4 2 d p) (fun data p _ => ?_) (by omega)
-  refine PaysCr.bind_nested (n := ar * data.length + br) (hr key data) fun _ _ => ?_
+  refine PaysCr.bind (readLenBlockC_pays ar 0 4 2 d p) (fun data p hd => ?_) (by omega)
+  have hlen : data.length ≤ d.length := by have := readLenBlockC_ok hd; omega
+  refine PaysCr.bind_nested (n := ar * data.length + br) (hr key data hlen) fun _ _ => ?_
   exact PaysCr.ite (fun _ => PaysCr.ok _) (fun _ => PaysCr.error _)
 
 variable (hrs : ∀ key data, HookOk (rs key data))
@@ -304,21 +308,22 @@ theorem resourceT_ok {d : B} {p : Nat} {r : Resource} {p' : Nat} (h : (Resource.
   have := (resource_good d p).of_ok h1
   omega
 
-theorem resourcesLoopT_pays (d : B) (p : Nat) (hr : HR rs ar br) (hj : 15 + br ≤ j * 11) :
+theorem resourcesLoopT_pays (d : B) (p : Nat) (hr : HR rs ar br d.length) (hj : 15 + br ≤ j * 11) :
     Pays (1 + ar + j) (15 + br + 6) d p (readWhileC (isReadableC 4) (optItemC (Resource.decT rs)) d p) :=
   readWhileC_pays (cond := isReadable 4) (bi := 15 + br) (cc := 5) (fun r => isReadableC_fst 4 d r) (fun r => isReadableC_w 4 d r)
     (fun r _ => WhileItem.of_pays' (a' := 1 + ar) (j := j) (k := 11) (resourceT_pays d r hr)
       (fun v p' hx => resourceT_ok hrs hx) (by omega) (by omega)) p
 
-theorem resourcesT_pays (d : B) (p : Nat) (hr : HR rs ar br) (hj : 15 + br ≤ j * 11) :
+theorem resourcesT_pays (d : B) (p : Nat) (hr : HR rs ar br d.length) (hj : 15 + br ≤ j * 11) :
     Pays (3 + ar + j) (26 + br) d p (resourcesDecT rs d p) := by
   unfold resourcesDecT
   have e0 : 2 + ar + j + 1 = 3 + ar + j := by omega
-  refine PaysCr.bind (readLenBlockC_pays (2 + ar + j) 0 4 1 d p) (fun data p _ => ?_) (by omega)
+  refine PaysCr.bind (readLenBlockC_pays (2 + ar + j) 0 4 1 d p) (fun data p hd => ?_) (by omega)
+  have hlen : data.length ≤ d.length := by have := readLenBlockC_ok hd; omega
   have e : (2 + ar + j) * data.length = (1 + ar + j) * data.length + data.length := by
     rw [show 2 + ar + j = (1 + ar + j) + 1 by omega, Nat.add_mul, Nat.one_mul]
   refine PaysCr.bind_nested (n := 1 + data.length) (Nat.le_of_eq (enterBlock_w data)) fun _ _ => ?_
-  refine PaysCr.bind_nested (n := (1 + ar + j) * data.length + (15 + br + 6)) (resourcesLoopT_pays hrs data 0 hr hj).w_le
+  refine PaysCr.bind_nested (n := (1 + ar + j) * data.length + (15 + br + 6)) (resourcesLoopT_pays hrs data 0 (hr.anti hlen) hj).w_le
     fun ⟨items, _⟩ _ => ?_
   exact PaysCr.ok _
 
@@ -329,7 +334,7 @@ end resources
 /-- everything `PSD.readT` spends on `b`, whatever its outcome -/
 theorem psdT_spend {pl : BlockHook} {rs : ResHook} {ap bp q ar br j : Nat} (b : B)
     (hpl : ∀ v key data, HookOk (pl v key data)) (hrs : ∀ key data, HookOk (rs key data))
-    (hb : HB pl ap bp b.length) (hq : bp ≤ 12 * q) (hr : HR rs ar br) (hj : 15 + br ≤ j * 11) :
+    (hb : HB pl ap bp b.length) (hq : bp ≤ 12 * q) (hr : HR rs ar br b.length) (hj : 15 + br ≤ j * 11) :
     (PSD.readT pl rs b 0).2.w ≤ (13 + ap + q + ar + j) * b.length + (224 + br) := by
   have hs : Spend (12 + ap + q + ar + j) (224 + br + b.length) b 0 (PSD.readT pl rs b 0) := by
     unfold PSD.readT
